@@ -35,7 +35,7 @@ ANCHORS = ['util:KeyCache.__call__', 'util:KeyCache.__init__', 'convert:_make_co
            'convert:ConverterHandlers._process', 'classes:_make_subclass']
 MIN_COUNTERS = {'quick': {'histories': 600, 'history_steps': 15000, 'cache_hits': 3000, 'cache_misses': 3000, 'types_dropped': 2000,
                           'fresh_build_comparisons': 5000, 'threaded_conversions': 20000, 'yields_injected': 2000,
-                          'lru_sequences': 20000, 'lru_threaded_calls': 5000, 'generic_parametrisations': 300}}
+                          'lru_sequences': 20000, 'lru_threaded_calls': 5000, 'generic_parametrisations': 300, 'shared_handler_object_sequences': 100}}
 
 # ---- the in-cache monitor -----------------------------------------------------------------------------------------------------
 mon_lock = threading.Lock()
